@@ -361,6 +361,55 @@ def diag_failure_scenario():
   return [(dict(base, clause='failure-swallowed', observed='ok'), 'no exception')]
 
 
+class _FailingInstance:
+  """A callable object: it has neither __qualname__ nor __name__."""
+
+  def __call__(self, s1=0):
+    raise KeyError('instance failure')
+
+
+def _fail_with(code):
+  raise ValueError(f'failure {code}')
+
+
+def _reraise(exc):
+  raise exc
+
+
+def unnamed_and_reraised_scenarios():
+  """Callables without a name (instances, functools.partial objects), and exceptions that already carry a
+  path from an earlier build: the escaping exception names a path of THIS build that leads to the failing
+  Buildable."""
+  import functools  # pylint: disable=g-import-not-at-top
+  out = []
+  def check(name, cfg, exc_type, prefix, want_path):
+    base = {'exc_shape': exc_type.__name__, 'diag': name}
+    try:
+      fdl.build(cfg)
+    except BaseException as e:  # pylint: disable=broad-except
+      if not isinstance(e, exc_type):
+        out.append((dict(base, clause='class', observed=type(e).__name__), f'{name}: {type(e).__name__}'))
+      elif prefix not in str(e):
+        out.append((dict(base, clause='message-prefix', observed='raise'), f'{name}: {str(e)[:120]!r}'))
+      elif want_path not in str(e):
+        out.append((dict(base, clause='path-missing', observed='raise'),
+                    f'{name}: the message does not name {want_path}: {str(e)[:200]!r}'))
+      return e
+    out.append((dict(base, clause='failure-swallowed', observed='ok'), f'{name}: no exception'))
+    return None
+  check('callable-instance', fdl.Config(H.f1, s1=[fdl.Config(_FailingInstance(), s1=1)]), KeyError,
+        'instance failure', '.s1[0]')
+  check('functools-partial-callable', fdl.Config(H.f1, s2={'k1': fdl.Config(functools.partial(_fail_with, 3))}),
+        ValueError, 'failure 3', ".s2['k1']")
+  first = check('first-failure', fdl.Config(H.f1, s1=fdl.Config(_fail_with, 7)), ValueError, 'failure 7', '.s1')
+  if first is not None:
+    # the exception that escaped is raised again by a callable at another place of another configuration
+    check('reraised-decorated-exception',
+          fdl.Config(H.f1, s1=fdl.Config(H.g4, s1=1), s3=[0, {'k2': fdl.Config(_reraise, first)}]),
+          ValueError, 'failure 7', ".s3[1]['k2']")
+  return out
+
+
 def main():
   v = common.Verdict(PROP, 'fault_enumeration')
   quick = common.tier() == 'quick'
@@ -389,7 +438,7 @@ def main():
         v.mismatch(f, case)
       if sample:
         v.sample(sample)
-    for f, msg in diag_failure_scenario():
+    for f, msg in diag_failure_scenario() + unnamed_and_reraised_scenarios():
       v.mismatch(f, {'message': msg})
   v.coverage.update({
       'evaluations': totals['cases'], 'distinct_nontrivial': totals['nontrivial'],
